@@ -105,10 +105,16 @@ static void c15_batch(long idx, long n, uint64_t seed) {
         Rng r(seed);
         RawServer srv; srv.start();
         int threads = r.range(1, 4), maxConn = r.range(1, 8), nreq = r.range(1, 64);
-        int scenario = (int)(n % 6);   // 0 only answering behaviours, 1 with never-answered + time-outs, 2 with late answers, 3 close-after mix,
+        int scenario = (int)((n + g_opts.shard) % 7);   // 0 only answering behaviours, 1 with never-answered + time-outs, 2 with late answers, 3 close-after mix,
                                        // 4 answered requests that carry a time-out followed by slow requests without one,
                                        // 5 a response and the expiry of a time-out reaching the client in ONE poll result (see below)
+                                       // 6 requests to a host whose connect() fails on the spot, queued together with requests that need new connections to
+                                       //   the healthy server while the I/O thread is busy: the failed entry must not end the drain of the connection queue
         if (scenario == 5) { threads = 1; maxConn = 2; nreq = 7; }
+        static int deadHostWorks = -1;   // does a non-blocking connect to the limited-broadcast address fail at once here (ENETUNREACH)?
+        if (deadHostWorks < 0) { int fd = ::socket(AF_INET, SOCK_STREAM | SOCK_NONBLOCK, 0); sockaddr_in a{}; a.sin_family = AF_INET; a.sin_port = htons(9); a.sin_addr.s_addr = htonl(INADDR_BROADCAST); int rc = ::connect(fd, (sockaddr*)&a, sizeof a); deadHostWorks = (rc == -1 && errno != EINPROGRESS) ? 1 : 0; ::close(fd); }
+        if (scenario == 6 && !deadHostWorks) { scenario = 0; count("dead_host_scenario_not_applicable_here"); }
+        if (scenario == 6) { threads = 1; maxConn = r.range(3, 8); nreq = r.range(6, 20); }
         if (scenario == 4) nreq = std::min(nreq, 16 * maxConn);   // its slow requests take 0.6 s each: the batch has to fit into the waiting bound
         Http::Experimental::Client client;
         client.init(Http::Experimental::Client::options().threads(threads).maxConnectionsPerHost(maxConn));
@@ -119,10 +125,10 @@ static void c15_batch(long idx, long n, uint64_t seed) {
         // application threads issuing the batch: 1, or several released together (the pool is then claimed concurrently by the
         // issuers and by the I/O threads handing queued requests over)
         int issuers = r.chance(2, 5) ? r.range(2, 6) : 1;
-        if (scenario == 5) issuers = 1;
+        if (scenario == 5 || scenario == 6) issuers = 1;
         cfg += " issuers=" + std::to_string(issuers);
         set_case(idx, Json().num("i", idx).str("phase", "c15").str("config", cfg).done());
-        std::vector<int> params((size_t)nreq); std::vector<std::string> bodies((size_t)nreq); std::vector<int> pauseAfter((size_t)nreq, -1);
+        std::vector<int> params((size_t)nreq); std::vector<std::string> bodies((size_t)nreq); std::vector<int> pauseAfter((size_t)nreq, -1); std::vector<char> dead((size_t)nreq, 0); std::atomic<int> ioBusy{0};
         for (int k = 0; k < nreq; k++) {
             out.emplace_back(new Outcome());
             int b;
@@ -130,6 +136,7 @@ static void c15_batch(long idx, long n, uint64_t seed) {
             else if (scenario == 1) b = r.chance(1, 5) ? B_NEVER : r.range(0, 3);
             else if (scenario == 2) b = r.chance(1, 4) ? B_LATE : r.range(0, 3);
             else if (scenario == 3) b = r.chance(1, 4) ? B_CLOSE_AFTER : r.range(0, 3);
+            else if (scenario == 6) { b = k == 0 ? B_IMMEDIATE : r.range(0, 3); if (k >= 1 && k <= 3 && (k == 1 || r.chance(1, 2))) dead[(size_t)k] = 1; }
             else b = r.chance(1, 2) ? B_IMMEDIATE : B_DELAYED;
             beh[(size_t)k] = b;
             int param = r.range(0, 1500);
@@ -152,11 +159,12 @@ static void c15_batch(long idx, long n, uint64_t seed) {
             timeoutMs[(size_t)k] = to; params[(size_t)k] = param;
             if (r.chance(1, 3)) { int bl = r.range(1, 300); for (int j = 0; j < bl; j++) bodies[(size_t)k] += (char)r.below(256); }
             if (r.chance(1, 6)) pauseAfter[(size_t)k] = r.range(0, 3);
+            if (scenario == 6) pauseAfter[(size_t)k] = -1;
         }
         auto build = [&](int k) {
             int b = beh[(size_t)k], param = params[(size_t)k], to = timeoutMs[(size_t)k]; const std::string& bodyIn = bodies[(size_t)k];
             // one URL in twelve has a query and no path ("host:port?id=..."): the request line must still carry an origin-form target
-            std::string url = (k % 12 == 7) ? base + "?id=" + std::to_string(k) + "&b=" + std::to_string(b) + "&p=" + std::to_string(param) : base + "/t/" + std::to_string(k) + "/" + std::to_string(b) + "/" + std::to_string(param);
+            std::string url = dead[(size_t)k] ? "http://255.255.255.255:9/t/" + std::to_string(k) + "/0/0" : (k % 12 == 7) ? base + "?id=" + std::to_string(k) + "&b=" + std::to_string(b) + "&p=" + std::to_string(param) : base + "/t/" + std::to_string(k) + "/" + std::to_string(b) + "/" + std::to_string(param);
             auto rb = bodyIn.empty() ? client.get(url) : client.post(url);
             if (!bodyIn.empty()) rb.body(bodyIn);
             rb.header<Http::Header::Server>("blen-" + std::to_string(bodyIn.size()));
@@ -167,13 +175,15 @@ static void c15_batch(long idx, long n, uint64_t seed) {
             Outcome* o = out[(size_t)k].get();
             auto rb = prebuilt ? *prebuilt : build(k);
             try {
-                bool blockIo = scenario == 5 && k == 0;
-                rb.send().then([o, blockIo](Http::Response resp) { int t = -1; sscanf(resp.body().c_str(), "tag=%d;", &t); o->tag = t; o->status = (int)resp.code(); o->at = lv::now(); o->fulfilled++; if (blockIo) lv::msleep(8); },
+                bool blockIo = scenario == 5 && k == 0; bool holdIo = scenario == 6 && k == 0; std::atomic<int>* busy = &ioBusy;
+                rb.send().then([o, blockIo, holdIo, busy](Http::Response resp) { int t = -1; sscanf(resp.body().c_str(), "tag=%d;", &t); o->tag = t; o->status = (int)resp.code(); o->at = lv::now(); o->fulfilled++; if (blockIo) lv::msleep(8); if (holdIo) { busy->store(1); lv::msleep(60); } },
                                [o](std::exception_ptr) { o->at = lv::now(); o->rejected++; });
             } catch (const std::exception& e) { o->err = e.what(); o->rejected++; }
             if (pauseAfter[(size_t)k] >= 0) lv::msleep(pauseAfter[(size_t)k]);
         };
-        if (issuers == 1) { for (int k = 0; k < nreq; k++) issue(k); }
+        if (issuers == 1) { for (int k = 0; k < nreq; k++) { issue(k);
+            // scenario 6: everything after request 0 is issued while its continuation keeps the (only) I/O thread away from its loop
+            if (scenario == 6 && k == 0) { double e0 = lv::now() + 5.0 * lv::load_factor(); while (!ioBusy.load() && lv::now() < e0) usleep(200); if (ioBusy.load()) count("dead_host_batches_queued_while_io_thread_busy"); } } }
         else {
             std::atomic<int> ready{0}; std::atomic<bool> go{false}; std::vector<std::thread> it;
             // every issuer has its first request built before the barrier: the very first send() calls of a fresh client (no pool for
@@ -189,7 +199,7 @@ static void c15_batch(long idx, long n, uint64_t seed) {
         }
         // wait: everything settled, or the server has been idle for the grace period
         double lf = lv::load_factor();
-        auto allSettled = [&] { for (auto& o : out) if (o->fulfilled + o->rejected == 0) return false; return true; };
+        auto allSettled = [&] { for (size_t k = 0; k < out.size(); k++) { if (k < dead.size() && dead[k]) continue; if (out[k]->fulfilled + out[k]->rejected == 0) return false; } return true; };
         double hardEnd = lv::now() + 20.0 * lf;
         while (!allSettled() && lv::now() < hardEnd) { lv::msleep(10); if (lv::now() - srv.lastActivity.load() > 3.0 * lf && lv::now() - srv.lastActivity.load() < 1e6 && srv.lastActivity.load() > 0) break; }
         // a batch cut short by the bound while the server was still receiving requests: what had not been sent yet is not judged
@@ -236,6 +246,8 @@ static void c15_batch(long idx, long n, uint64_t seed) {
         std::vector<std::tuple<std::string, std::string, std::string>> anomalies;
         for (int k = 0; k < nreq; k++) {
             Outcome& o = *out[(size_t)k]; int b = beh[(size_t)k];
+            // a request to the unreachable host: what becomes of it is not part of the statement (no connection is ever established); it must only not be fulfilled
+            if ((size_t)k < dead.size() && dead[(size_t)k]) { count("requests_to_a_host_whose_connect_fails_at_once"); if (o.fulfilled) anomalies.emplace_back("c15:fulfilled-without-answer", cfg + ": request " + std::to_string(k) + " to an unreachable host was fulfilled", Json().num("i", idx).str("config", cfg).num("request", k).done()); continue; }
             std::string wt = Json().num("i", idx).str("phase", "c15").str("config", cfg).num("request", k).str("behaviour", BNAME[b]).num("fulfilled", o.fulfilled.load()).num("rejected", o.rejected.load()).num("tag_received", o.tag.load()).done();
             std::string key;
             bool served = byId.count(k) && byId[k].answered;
@@ -336,7 +348,7 @@ static void run_c15(long cases) {
     for (long n = 0; n < cases; n++) {
         long idx = g_opts.shard * 100000L + n;
         uint64_t seed = r.next();
-        int scenario = (int)(n % 6);
+        int scenario = (int)((n + g_opts.shard) % 7);
         pid_t pid = fork();
         if (pid == 0) { c15_batch(idx, n, seed); _exit(0); }
         double end = lv::now() + 25.0 * lv::load_factor(); int status = 0; bool exited = false;
